@@ -4,17 +4,28 @@ import numpy as np
 import single
 
 import proto
-from common import gen_data, rel
+from common import gen_data, rel, as_input
 
 TRUSTED_BASE = [
     "lpc uses numpy fft/ifft for the autocorrelation (parameter: the DFT); the lpc clause is checked by the oracle on the real code",
-    "scipy.linalg.lstsq (least-squares clause) is a parameter; oracle compares with the Yule-Walker coefficients",
+    "scipy.linalg.lstsq / numpy.linalg.lstsq (least-squares clause) are parameters; oracle compares with the Yule-Walker coefficients",
     "exact mode: dyadic data, model in exact Gaussian rationals (orders <= 12), rtol 1e-8; float mode for larger sizes, rtol 1e-7",
+    "oracle references written in numpy: r_k = sum x[n+k] conj(x[n]) / N, the (N+p) x (p+1) 'autocorrelation' data matrix, "
+    "P/|DFT([1,a])|^2; scipy.signal.lfilter (impulse response of 1/A(z)), numpy.roots and numpy.fft are parameters",
 ]
 PARTIAL = []   # lpc: C12.lpc_eq_yule (Wiener-Khinchin + inverse DFT + Levinson scale invariance); stability: C12.yule_stable
-ASSUMPTIONS = ["conditioning predicate: final error P >= 1e-7 r0 (noise-free tones make the fit singular; such cases are skipped and counted)"]
-RULE = ("non-zero real/complex data (noise, tones + noise, trends, integer-valued, complex dtype with zero imaginary part) of "
-        "length 3..200 x orders 1..min(N-1, 30); non-trivial = order >= 2")
+ASSUMPTIONS = ["no conditioning predicate: the biased estimator is positive definite for every non-zero record (P / r0 >= 1e-3 on "
+               "every generated class, including constant records and noise-free tones of length 1000), so no case is dropped",
+               "coefficient vectors are compared relatively (1e-7 of their max-norm); when both are zero to rounding (impulse and "
+               "sparse records, r_1 = 0 at order 1) the comparison is absolute, 1e-14, i.e. relative to the leading coefficient 1",
+               "the model autocorrelation is evaluated from the impulse response of 1/A(z) truncated at L samples and from the "
+               "library's PSD sampled on NFFT points; L and NFFT follow the pole radius rho (rho^L, rho^NFFT <= 1e-18 whenever "
+               "L <= 2^18, NFFT <= 2^16) and the tolerance carries the truncation / aliasing term 1e3 rho^(L-p-1)",
+               "lpc with the default order (N=None -> len(x)-1) is exercised for len(x) <= 31 only (orders 1..30 of the quantifier)"]
+RULE = ("non-zero real/complex data (noise, tones + noise, trends, integer-valued as float64 / int64 / int32 / int16 / int8 / uint8 "
+        "arrays and as Python lists, complex dtype with zero imaginary part, exactly constant records, noise-free real / complex "
+        "tones, alternating sign, single impulses and sparse records, N = 2) of length 2..200 (long records up to 1000) x orders "
+        "1..min(N-1, 30); non-trivial = order >= 2")
 
 
 def _sp():
@@ -24,6 +35,60 @@ def _sp():
 
 def c(v):
     return np.asarray(v).astype(complex).ravel()
+
+
+def _values(xin):
+    """the sample values of the input as float64 / complex128 (integer samples are exact in doubles)"""
+    a = np.asarray(xin)
+    return a.astype(complex) if np.iscomplexobj(a) else a.astype(float)
+
+
+def _snap(xin):
+    if isinstance(xin, list):
+        return ("list", list(xin))
+    a = np.asarray(xin)
+    return ("array", a.dtype, a.shape, a.copy())
+
+
+def _unchanged(xin, s):
+    if s[0] == "list":
+        return isinstance(xin, list) and len(xin) == len(s[1]) and all(
+            type(u) is type(v) and u == v for u, v in zip(xin, s[1]))
+    a = np.asarray(xin)
+    return a.dtype == s[1] and a.shape == s[2] and np.array_equal(a, s[3])
+
+
+def _inkind(xin):
+    if isinstance(xin, list):
+        return "list-" + ("complex" if any(isinstance(v, complex) for v in xin) else
+                          "int" if all(isinstance(v, int) for v in xin) else "float")
+    return str(np.asarray(xin).dtype)
+
+
+def _acf(xv, p):
+    """biased sample autocorrelation, r_k = sum_n x[n+k] conj(x[n]) / N, k = 0..p (numpy; independent of the library)"""
+    N = len(xv)
+    return np.array([np.sum(xv[k:] * np.conj(xv[:N - k])) / N for k in range(p + 1)]).astype(complex)
+
+
+def _datamatrix(xv, p):
+    """the (N+p) x (p+1) 'autocorrelation' (pre- and post-windowed) data matrix, X[i, j] = x[i-j]"""
+    N = len(xv)
+    X = np.zeros((N + p, p + 1), dtype=complex)
+    for j in range(p + 1):
+        X[j:j + N, j] = xv
+    return X
+
+
+def _close(u, v, rtol, floor=1e-14):
+    """max|u-v| <= rtol max(|u|,|v|), or <= floor (the polynomial [1, a] has leading coefficient 1: coefficients that are
+    zero to rounding - impulse records - compare absolutely)"""
+    u, v = c(u), c(v)
+    if u.shape != v.shape or not (np.all(np.isfinite(u)) and np.all(np.isfinite(v))):
+        return False
+    if u.size == 0:
+        return True
+    return rel(u, v) <= rtol or float(np.max(np.abs(u - v))) <= floor
 
 
 def impl_yule(p):
@@ -39,40 +104,148 @@ def model_yule(p):
 def oracle_yule(p):
     sp = _sp()
     import scipy.linalg
+    from scipy.signal import lfilter
     from spectrum.linear_prediction import poly2ac
-    x = np.asarray(p["x"])
+    xin = p["x"]                      # handed to the library as it is: float / integer array, strided view or Python list
+    snap = _snap(xin)
+    x = np.asarray(xin)
+    xv = _values(xin)
     N = len(x)
     order = p["order"]
+    cplx = np.iscomplexobj(x)
+    what = "N=%d order=%d %s %s" % (N, order, "complex" if cplx else "real", _inkind(xin))
     out = []
-    a, P, k = sp.aryule(x, order)
+    a, P, k = sp.aryule(xin, order)
+    a0, k0 = np.asarray(a), np.asarray(k)
     a, k = c(a), c(k)
     if len(a) != order or len(k) != order:
         return ["aryule returned %d coefficients for order %d" % (len(a), order)]
     roots = np.roots(np.concatenate(([1], a)))
-    if np.max(np.abs(roots)) >= 1:
+    rho = float(np.max(np.abs(roots)))
+    if rho >= 1:
         out.append("Yule-Walker polynomial not stable: max|root| = %.8f (N=%d order=%d)" % (np.max(np.abs(roots)), N, order))
     if not np.all(np.abs(k) < 1):
         out.append("reflection coefficient of modulus >= 1")
     if not (np.isreal(P) and P > 0):
         out.append("noise variance %r is not positive" % (P,))
-    r = c(sp.CORRELATION(x, maxlags=order, norm="biased"))
+    r = c(sp.CORRELATION(xin, maxlags=order, norm="biased"))
     Rm = c(poly2ac(np.concatenate(([1], a)), P))
     if rel(Rm, r) > 1e-7:
         out.append("autocorrelation implied by the model differs from the biased sample autocorrelation: %.2e (N=%d order=%d %s)" % (
             rel(Rm, r), N, order, "complex" if np.iscomplexobj(x) else "real"))
     X = sp.corrmtx(x, order, "autocorrelation")
     als = scipy.linalg.lstsq(-X[:, 1:], X[:, 0])[0]
-    if rel(c(als), a) > 1e-7:
+    if not _close(als, a, 1e-7):     # (relative 1e-7; coefficients that are exactly zero, e.g. r_1 = 0 at order 1: absolute 1e-14)
         out.append("least squares on the 'autocorrelation' data matrix gives different coefficients: %.2e" % rel(c(als), a))
     if not np.iscomplexobj(x):
         al, el = sp.lpc(np.array(x, dtype=float), order)
-        if rel(c(al), a) > 1e-7:
+        if not _close(al, a, 1e-7):
             out.append("lpc coefficients differ from aryule: %.2e (N=%d order=%d)" % (rel(c(al), a), N, order))
+
+    # ---- independent references (numpy formulas on the sample values) -------------------------------------------------
+    ri = _acf(xv, order)
+    r0 = float(ri[0].real)
+    P = float(np.real(P))
+    # (a) the lags the library's step-down attributes to the model are the biased sample autocorrelation r_k (numpy)
+    if not rel(Rm, ri) <= 1e-9:
+        out.append("model autocorrelation (poly2ac) differs from r_k = sum x[n+k] conj(x[n]) / N: %.2e (%s)" % (rel(Rm, ri), what))
+    # (b) Yule-Walker normal equations with the independent lags: r_k + sum_j a_j r_{k-j} = P delta_k, r_{-k} = conj(r_k)
+    rr = np.concatenate((np.conj(ri[:0:-1]), ri))          # lags -p..p
+    ne = np.array([rr[order + kk] + np.dot(a, rr[order + kk - 1 - np.arange(order)]) for kk in range(order + 1)])
+    ne[0] -= P
+    ne_err = float(np.max(np.abs(ne))) / (r0 * (1 + float(np.sum(np.abs(a)))))
+    if not ne_err <= 1e-11:
+        out.append("Yule-Walker normal equations with the numpy autocorrelation not satisfied: residual %.2e (%s)" % (ne_err, what))
+    # (c) the model autocorrelation IS the autocorrelation of the AR process x[n] = -sum a_k x[n-k] + e[n], var(e) = P:
+    #     time domain  P sum_n h[n+k] conj(h[n]),  h = impulse response of 1/A(z);  frequency domain: inverse DFT of the
+    #     library's PSD of the model (arma2psd).  Both pin the conjugation convention for complex data.
+    if rho < 1 and P > 0:
+        lr = np.log(max(rho, 1e-3))
+        need = int(np.ceil(np.log(1e-18) / lr))
+        L = min(max(need, 4 * (order + 1)), 2 ** 18) + order + 1
+        imp = np.zeros(L, dtype=complex)
+        imp[0] = 1
+        h = lfilter([1], np.concatenate(([1], a)), imp)
+        rh = P * np.array([np.sum(h[kk:] * np.conj(h[:L - kk])) for kk in range(order + 1)])
+        tol = 1e-9 + 1e3 * rho ** (L - 2 * order - 2)
+        if not rel(rh, ri) <= tol:
+            out.append("autocorrelation of the AR process (impulse response of 1/A) differs from the biased sample "
+                       "autocorrelation: %.2e (tol %.1e, max|root| %.6f, %s)" % (rel(rh, ri), tol, rho, what))
+        nf = int(2 ** int(np.ceil(np.log2(max(64, 2 * (order + 1), need)))))
+        nf = min(nf, 2 ** 16)
+        tolf = 1e-9 + 1e3 * rho ** (nf - order - 1)
+        psd2 = np.asarray(sp.arma2psd(A=a0, rho=P, NFFT=nf, T=1))
+        rps = np.fft.ifft(psd2)[:order + 1]
+        if not rel(rps, ri) <= tolf:
+            out.append("inverse DFT of arma2psd(a, rho=P) differs from the biased sample autocorrelation: %.2e (tol %.1e, "
+                       "NFFT %d, max|root| %.6f, %s)" % (rel(rps, ri), tolf, nf, rho, what))
+    else:
+        nf, tolf = 64, 1.0
+    # (d) value of the noise variance: ||X1 + Xc a||^2 = N P on the 'autocorrelation' data matrix (numpy and corrmtx)
+    Xi = _datamatrix(xv, order)
+    for nm, M in (("numpy", Xi), ("corrmtx", np.asarray(X).astype(complex))):
+        if M.shape != Xi.shape:
+            out.append("corrmtx 'autocorrelation' data matrix has shape %r, expected %r" % (M.shape, Xi.shape))
+            continue
+        pe = float(np.sum(np.abs(M[:, 0] + M[:, 1:] @ a) ** 2))
+        if not (P > 0 and abs(pe / (N * P) - 1) < 1e-9):
+            out.append("prediction error energy on the %s 'autocorrelation' data matrix is not N*P: ||X1 + Xc a||^2/(N P) - 1 = %.2e (%s)" % (
+                nm, pe / (N * P) - 1 if P > 0 else float("nan"), what))
+    # (e) least squares on the numpy data matrix
+    ali = np.linalg.lstsq(-Xi[:, 1:], Xi[:, 0], rcond=None)[0]
+    if not _close(ali, a, 1e-7):
+        out.append("least squares on the numpy 'autocorrelation' data matrix gives different coefficients: %.2e (%s)" % (rel(c(ali), a), what))
+    # (f) explicit norm='biased' is the default
+    ab, Pb, kb = sp.aryule(xin, order, norm="biased")
+    if not (np.array_equal(np.asarray(ab), a0) and np.array_equal(np.asarray(kb), k0) and Pb == P):
+        out.append("aryule(x, p, norm='biased') differs from aryule(x, p) (%s)" % what)
+    # (g) observation points pyule.ar / pyule.reflection (after () and after reading .psd), with the PSD of the model
+    nfs = (32, 33, 64, 65, 128, 255, 256)[(N + 3 * order) % 7]
+    for how, kw, nfft in (("call", {}, nfs), ("psd", {"norm": "biased"}, nf)):
+        q = sp.pyule(xin, order, NFFT=nfft, scale_by_freq=False, **kw)
+        if how == "call":
+            q()
+        psd = np.asarray(q.psd)
+        qa, qk = np.asarray(q.ar), np.asarray(q.reflection)
+        if qa.shape != a0.shape or qk.shape != k0.shape or not (np.array_equal(qa, a0) and np.array_equal(qk, k0)):
+            out.append("pyule(%s).ar / .reflection differ from aryule: %.2e / %.2e (%s)" % (
+                how, rel(c(qa), a), rel(c(qk), k), what))
+        qr = np.roots(np.concatenate(([1], c(qa))))
+        if np.max(np.abs(qr)) >= 1 or not np.all(np.abs(c(qk)) < 1):
+            out.append("pyule.ar not stable / pyule.reflection of modulus >= 1: max|root| %.8f (%s)" % (np.max(np.abs(qr)), what))
+        ref = P / np.abs(np.fft.fft(np.concatenate(([1], a)), nfft)) ** 2        # two-sided PSD of the model, T = 1
+        if cplx:
+            exp_psd, two = ref, psd
+        else:
+            exp_psd = 2 * ref[:nfft // 2 + 1]                                     # one-sided: bins 0..NFFT/2, doubled
+            half = psd / 2
+            two = np.concatenate((half, half[1:(nfft + 1) // 2][::-1])) if psd.shape == exp_psd.shape else psd
+        if psd.shape != exp_psd.shape or not rel(psd, exp_psd) <= 1e-9:
+            out.append("pyule PSD is not P/|A(f)|^2 of the aryule model: %.2e (NFFT %d, %s)" % (
+                rel(psd, exp_psd) if psd.shape == exp_psd.shape else float("inf"), nfft, what))
+        elif how == "psd" and rho < 1:
+            # mean of the two-sided PSD = zero-lag autocorrelation of the model (aliased by rho^NFFT) = r_0 of the data
+            m = float(np.mean(two))
+            if not abs(m / r0 - 1) <= tolf:
+                out.append("mean of the two-sided pyule PSD is not r_0 = mean |x|^2: ratio - 1 = %.2e (tol %.1e, NFFT %d, %s)" % (
+                    m / r0 - 1, tolf, nfft, what))
+    if not _unchanged(xin, snap):
+        out.append("the input record was modified (%s)" % what)
     return out
 
 
+def _lpc_call(p):
+    sp = _sp()
+    how = p.get("call", "pos")
+    if how == "kw":
+        return sp.lpc(p["x"], N=p["order"])
+    if how == "default":
+        return sp.lpc(p["x"])
+    return sp.lpc(p["x"], p["order"])
+
+
 def impl_lpc(p):
-    a, e = _sp().lpc(np.array(p["x"], dtype=float), p["order"])
+    a, e = _lpc_call(p)
     return [c(a), c([e])]
 
 
@@ -83,35 +256,228 @@ def model_lpc(p):
     return ("F", proto.request("lpc", "F", [p["order"], nfft], [x]))
 
 
+def post_lpc(p, iv, mv):
+    """the error power is compared RELATIVELY: both sides are divided by |e_model|, so that the absolute term of the kind
+    (1e-12, kept for coefficients that are zero to rounding) is negligible for e at every data amplitude"""
+    try:
+        s = abs(complex(np.asarray(mv[1]).ravel()[0]))
+        if len(iv) == 2 and len(mv) == 2 and np.isfinite(s) and s > 0:
+            return [iv[0], np.asarray(iv[1]) / s], [mv[0], np.asarray(mv[1]) / s]
+    except Exception:
+        pass
+    return iv, mv
+
+
+def oracle_lpc(p):
+    sp = _sp()
+    xin = p["x"]
+    snap = _snap(xin)
+    xv = _values(xin)
+    m = len(xv)
+    order = p["order"]
+    how = p.get("call", "pos")
+    what = "N=%d order=%d call=%s %s" % (m, order, how, _inkind(xin))
+    out = []
+    if how == "default" and order != m - 1:
+        return ["harness: default-order lpc case with order != len(x)-1"]
+    al, el = _lpc_call(p)
+    al0 = np.asarray(al)
+    al = c(al)
+    if len(al) != order:
+        return ["lpc returned %d coefficients for order %d (%s)" % (len(al), order, what)]
+    if not (np.isreal(el) and np.isfinite(el) and el > 0):
+        out.append("lpc error power %r is not positive (%s)" % (el, what))
+    el = float(np.real(el))
+    # the same coefficients as Yule-Walker; lpc normalises its autocorrelation by m-1: e = P m / (m-1)
+    a, P, k = sp.aryule(xin, order)
+    if not _close(al, a, 1e-7):
+        out.append("lpc coefficients differ from aryule: %.2e (%s)" % (rel(al, c(a)), what))
+    if not abs(el / (P * m / (m - 1.0)) - 1) <= 1e-9:
+        out.append("lpc error power is not P m/(m-1) of aryule: ratio - 1 = %.2e (%s)" % (el / (P * m / (m - 1.0)) - 1, what))
+    # independent: normal equations with the numpy autocorrelation
+    ri = _acf(xv, order).real
+    r0 = float(ri[0])
+    idx = np.abs(np.arange(order + 1)[:, None] - np.arange(1, order + 1)[None, :])
+    ne = ri + ri[idx] @ al.real
+    e_ref = ne[0] * m / (m - 1.0)
+    ne_err = float(np.max(np.abs(ne[1:]))) / (r0 * (1 + float(np.sum(np.abs(al))))) if order else 0.0
+    if not ne_err <= 1e-9:
+        out.append("lpc coefficients do not satisfy the normal equations of the numpy autocorrelation: residual %.2e (%s)" % (ne_err, what))
+    if not (e_ref > 0 and abs(el / e_ref - 1) <= 1e-8):
+        out.append("lpc error power is not (r_0 + sum a_j r_j) m/(m-1): ratio - 1 = %.2e (%s)" % (el / e_ref - 1 if e_ref else float("nan"), what))
+    if np.max(np.abs(np.roots(np.concatenate(([1], al))))) >= 1:
+        out.append("lpc polynomial not stable (%s)" % what)
+    if np.iscomplexobj(al0) and np.any(al0.imag != 0):
+        out.append("lpc coefficients of real data have a non-zero imaginary part (%s)" % what)
+    # the three ways of giving the order are the same computation
+    calls = [("pos", lambda: sp.lpc(xin, order)), ("kw", lambda: sp.lpc(xin, N=order))]
+    if order == m - 1:
+        calls.append(("default", lambda: sp.lpc(xin)))
+    for nm, f in calls:
+        if nm == how:
+            continue
+        a2, e2 = f()
+        if np.asarray(a2).shape != al0.shape or not (np.array_equal(np.asarray(a2), al0) and e2 == el):
+            out.append("lpc called with the order given as '%s' differs from '%s' (%s)" % (nm, how, what))
+    if not _unchanged(xin, snap):
+        out.append("lpc modified its input record (%s)" % what)
+    return out
+
+
 def _key(p):
     x = np.asarray(p["x"])
-    return "%d|%d|%s|%d" % (len(x), p["order"], np.iscomplexobj(x), hash(x.tobytes()) & 0xFFFFFF)
+    return "%d|%d|%s|%d|%s" % (len(x), p["order"], np.iscomplexobj(x), hash(x.tobytes()) & 0xFFFFFF, _inkind(p["x"]))
+
+
+def _tags_common(p):
+    t = ["data:" + p["dkind"].split(":")[0], "input:" + _inkind(p["x"])]
+    if p["dkind"].startswith("degen"):
+        t.append(p["dkind"])
+    return t
 
 
 KINDS = {
-    "lpc": {"impl": impl_lpc, "model": model_lpc, "rtol": 1e-7, "atol": 1e-12, "key": lambda p: "lpc|" + _key(p),
-            "nontrivial": lambda p: p["order"] >= 2, "tags": lambda p: ["lpc", "data:" + p["dkind"]]},
+    "lpc": {"impl": impl_lpc, "model": model_lpc, "oracle": oracle_lpc, "post": post_lpc, "rtol": 1e-7, "atol": 1e-12,
+            "key": lambda p: "lpc|" + p.get("call", "pos") + "|" + _key(p),
+            "nontrivial": lambda p: p["order"] >= 2,
+            "tags": lambda p: ["lpc", "lpc-call:" + p.get("call", "pos")] + _tags_common(p)},
     "yule": {"impl": impl_yule, "model": model_yule, "oracle": oracle_yule, "rtol": 1e-7, "atol": 1e-300, "key": _key,
              "nontrivial": lambda p: p["order"] >= 2,
-             "tags": lambda p: ["complex" if np.iscomplexobj(p["x"]) else "real", "data:" + p["dkind"],
+             "tags": lambda p: ["complex" if np.iscomplexobj(p["x"]) else "real"] + _tags_common(p) + [
                                 "mode:" + ("Q" if p["exact"] else "F"), "order=N-1" if p["order"] == len(p["x"]) - 1 else "order<N-1"]},
 }
 
 
-def _ok(x, order):
-    sp = _sp()
-    try:
-        a, P, k = sp.aryule(x, order)
-    except Exception:
-        return True   # let the oracle report it
-    r0 = float(np.mean(np.abs(x) ** 2))
-    return P >= 1e-7 * r0
-
-
 KINDS["single"] = single.kind("C12")
+
+
+def _dyadic(x, order):
+    """exact (rational) model mode is affordable and meaningful: small dyadic samples, short record, small order"""
+    x = np.asarray(x)
+    v = np.concatenate((np.real(x).ravel(), np.imag(x).ravel())).astype(float)
+    return bool(len(x) <= 40 and order <= 12 and np.all(np.abs(v) < 2 ** 20) and np.all(v * 64 == np.round(v * 64)))
+
+
+def _both(x, order, dkind, calls=("pos",)):
+    """a 'yule' case and, for real data, the 'lpc' cases on the same input object"""
+    yield ("yule", {"x": x, "order": order, "exact": _dyadic(x, order), "dkind": dkind})
+    if not np.iscomplexobj(np.asarray(x)):
+        for cl in calls:
+            if cl == "default" and not (order == len(x) - 1 and order <= 30):
+                continue
+            yield ("lpc", {"x": x, "order": order, "dkind": dkind, "call": cl})
+
+
+def gen_degenerate(nrng, tier):
+    """exactly constant records, noise-free tones, alternating sign, impulses / sparse records (a = 0), N = 2"""
+    n64, n200 = np.arange(64), np.arange(200)
+    fixed = [
+        ("const", np.full(20, 3.0), 5), ("const", np.full(20, 3.0), 19), ("const", np.full(20, 3 + 1j), 5),
+        ("const", np.full(20, 3 + 1j), 19), ("const", np.full(200, 1.0), 1), ("const", np.full(200, -0.75), 30),
+        ("tone", np.cos(0.3 * n64), 2), ("tone", np.cos(0.3 * n64), 10), ("tone", np.cos(2 * np.pi * 0.1 * n200), 30),
+        ("tone", np.sin(2 * np.pi * 0.25 * n64), 4), ("tone", np.cos(0.3 * n200) + np.cos(0.31 * n200), 30),
+        ("ctone", np.exp(2j * np.pi * 0.1 * n64), 1), ("ctone", np.exp(2j * np.pi * 0.1 * n64), 8),
+        ("ctone", np.exp(-2j * np.pi * 0.37 * n64) * (2 - 1j), 3),
+        ("alt", (-1.0) ** np.arange(20), 6), ("alt", 5 * (-1.0) ** np.arange(21), 20), ("alt", (1j) ** np.arange(24), 5),
+        ("n2", np.array([1.0, -2.0]), 1), ("n2", np.array([1.0, -2.0j]), 1), ("n2", np.array([0.0, 3.0]), 1),
+        ("n2", np.array([2.5, 2.5]), 1), ("n2", np.array([1 + 1j, 0.5 - 2j]), 1),
+        ("ramp", np.arange(200.0), 30), ("ramp", np.arange(1.0, 13.0), 11),
+    ]
+    for N in (8, 21):
+        for pos in (0, N // 2, N - 1):
+            for amp in (1.0, 2 - 1j):
+                x = np.zeros(N, dtype=type(amp) if isinstance(amp, complex) else float)
+                x[pos] = amp
+                fixed.append(("impulse", x, N - 1))
+    x = np.zeros(40)
+    x[0], x[35] = 1.0, 2.0
+    fixed.append(("sparse", x, 10))         # non-zero lags only beyond the order: a = 0
+    x = np.zeros(40, dtype=complex)
+    x[3], x[30] = 1j, -2.0
+    fixed.append(("sparse", x, 12))
+    x = np.zeros(31)
+    x[::10] = [1.0, -1.0, 2.0, 0.5]
+    fixed.append(("sparse", x, 9))          # lags 10, 20, 30 only
+    fixed.append(("sparse", x, 30))
+    for nm, x, order in fixed:
+        yield from _both(x, order, "degen:" + nm, calls=("pos", "kw", "default"))
+    # randomised members of the same classes
+    reps = 6 if tier == "quick" else 40
+    for i in range(reps):
+        cls = i % 6
+        cplx = bool((i // 6) % 2)
+        N = int(nrng.integers(2, 9)) if i % 5 == 0 else int(nrng.integers(3, 201))
+        n = np.arange(N)
+        omax = min(N - 1, 30)
+        order = (1, omax, int(nrng.integers(1, omax + 1)))[(i // 2) % 3]
+        amp = float(nrng.integers(1, 64)) / 8 * (-1) ** int(nrng.integers(0, 2))
+        ph = complex(np.exp(2j * np.pi * nrng.uniform())) if cplx else 1.0
+        f = float(nrng.uniform(0.01, 0.49))
+        if cls == 0:
+            x, nm = np.full(N, amp * ph), "const"
+        elif cls == 1:
+            x, nm = (amp * np.exp(2j * np.pi * f * n) * ph, "ctone") if cplx else (amp * np.cos(2 * np.pi * f * n + nrng.uniform(0, 6)), "tone")
+        elif cls == 2:
+            x, nm = amp * ph * (-1.0) ** n, "alt"
+        elif cls == 3:
+            x = np.zeros(N, dtype=complex if cplx else float)
+            x[int(nrng.integers(0, N))] = amp * ph
+            nm = "impulse"
+        elif cls == 4:
+            x = np.zeros(N, dtype=complex if cplx else float)
+            gap = order + 1 + int(nrng.integers(0, 3))
+            x[::gap] = amp * ph * nrng.integers(1, 5, len(x[::gap]))
+            nm = "sparse"
+        else:
+            x, nm = amp * ph * (n + 1.0), "ramp"
+        if not np.any(x):
+            continue
+        yield from _both(x, order, "degen:" + nm, calls=("pos", "default") if i % 2 else ("kw",))
+
+
+def gen_inputs(nrng, tier):
+    """the same kind of samples handed over as integer arrays of every width and as Python lists"""
+    reps = 60 if tier == "quick" else 240
+    styles = ["int64", "int16", "int32", "int8", "uint8", "list-int", "list-float", "list-complex", "intdtype", "list"]
+    for i in range(reps):
+        st = styles[i % len(styles)]
+        N = int(nrng.integers(3, 25)) if (i // len(styles)) % 2 == 0 else int(nrng.integers(25, 201))
+        n = np.arange(N)
+        omax = min(N - 1, 30)
+        order = (omax, 1, int(nrng.integers(1, omax + 1)), int(nrng.integers(1, min(omax, 6) + 1)))[(i // 3) % 4]
+        if st in ("intdtype", "list"):
+            # the classes of common.gen_data (integers in -5..5; 'list': Python floats / complex)
+            x, dk = gen_data(nrng, N, st == "list" and bool(i // 10 % 2), kind=st)
+            x = as_input(np.asarray(x), st)
+        else:
+            shape = 0.6 * np.cos((0.2 + 0.1 * (i % 7)) * n + 0.3) + 0.15 * nrng.standard_normal(N)
+            if i % 4 == 1:
+                shape = shape + 0.3 * n / N
+            amp = {"int64": 3e6, "int16": 8000.0, "int32": 1e5, "int8": 100.0, "uint8": 100.0}.get(st, 40.0)
+            v = np.round(amp * shape)
+            if st == "uint8":
+                v = v + 128
+            if st.startswith("list"):
+                if st == "list-int":
+                    x = [int(t) for t in v]
+                elif st == "list-float":
+                    x = [float(t) / 4 for t in v]
+                else:
+                    w = np.round(40 * nrng.standard_normal(N))
+                    x = [complex(float(s), float(t)) for s, t in zip(v, w)]
+            else:
+                dt = np.dtype(st)
+                x = np.clip(v, np.iinfo(dt).min, np.iinfo(dt).max).astype(dt)
+            dk = "int"
+        if not np.any(np.asarray(x)):
+            continue
+        yield from _both(x, order, dk, calls=("pos", "kw", "default")[i % 3:i % 3 + 1] if order == N - 1 and order <= 30 else ("pos", "kw")[i % 2:i % 2 + 1])
+
 
 def gen(rng, nrng, tier):
     yield from single.gen("C12", nrng, tier)
+    yield from gen_degenerate(nrng, tier)
+    yield from gen_inputs(nrng, tier)
     # FFT-size coincidences: N + order - 1 (and N + order) an exact power of two
     for p2 in (32, 64, 128, 256):
         for order in ([1, 3, 8] if tier == "quick" else [1, 2, 3, 5, 8, 13, 21, 30]):
@@ -137,16 +503,16 @@ def gen(rng, nrng, tier):
         else:
             N = int(nrng.integers(3, 41 if exact else 201))
         kind = kinds[i % len(kinds)]
-        if kind == "const":
-            kind = "noise"
+        if kind == "const" and (i // len(kinds)) % 2:
+            kind = "noise"                      # every other slot: an exactly constant record (gen_data 'const'), else noise
         x, dk = gen_data(nrng, N, cplx, kind=kind, exact=exact)
         x = np.asarray(x)
         if not np.iscomplexobj(x):
             x = x.astype(float)
         omax = min(N - 1, 12 if exact else 30)
         order = omax if i % 4 == 0 else int(nrng.integers(1, omax + 1))
-        if not _ok(x, order):
-            continue
         yield ("yule", {"x": x, "order": order, "exact": exact, "dkind": dk})
         if not np.iscomplexobj(x) and order <= N - 1 and N >= 3:
-            yield ("lpc", {"x": x, "order": order, "dkind": dk})
+            yield ("lpc", {"x": x, "order": order, "dkind": dk, "call": ("pos", "kw")[(i // 7) % 2]})
+            if order == N - 1 and order <= 30 and (i // 4) % 2 == 0:
+                yield ("lpc", {"x": x, "order": order, "dkind": dk, "call": "default"})
